@@ -74,7 +74,7 @@ EPS = float(np.finfo(np.float64).eps)
 CFUDGE = 256.0
 
 
-def lp_bounds(gam, X, y, w, Xq):
+def lp_bounds(gam, X, y, w, Xq, weight_rounding=False):
     """First-order forward-error bound (least-squares perturbation theory, Bjorck 1996 thm 1.4.6) of the linear predictor q'x at
     the rows q of the model matrix of Xq, for the least-squares problem [WB; E] x ~ [W z; 0] the code solves by QR + SVD:
         |q' dx| <= c eps ( |q' A^+| (|A| |x| + |rhs|) + |q' (A'A)^-1| |A| |r| ).
@@ -105,6 +105,14 @@ def lp_bounds(gam, X, y, w, Xq):
     n1 = np.linalg.norm(VQ / sv[:, None], axis=0)
     n2 = np.linalg.norm(VQ / sv[:, None] ** 2, axis=0)
     t = CFUDGE * EPS * (n1 * (sv[0] * np.linalg.norm(x) + np.linalg.norm(rhs)) + n2 * sv[0] * np.linalg.norm(r))
+    if weight_rounding and w is not None:
+        # GAM._W evaluates weights ** -1 on the float32 weight array: the working weight of row i is w_i (1 + d_i), |d_i| <= 2^-24, with d_i
+        # depending on the VALUE of w_i -- so a row of weight k w and its k copies of weight w are re-weighted differently.  First order in d
+        # (implicit differentiation of the penalised score equation):  q' dx = sum_i q' (A'A)^-1 B_i W_i^2 (z_i - lp_i) d_i.
+        # No fudge factor: this is an exact first-order expression, bounded with |d_i| <= 2^-24.
+        G = (Vt.T / sv ** 2) @ (Vt @ B[mask].T)                      # (A'A)^-1 B'   (m x kept rows)
+        score = (W[mask] ** 2) * np.abs(z[mask] - lp[mask])
+        t = t + 2.0 ** -24 * (np.abs(Q @ G) @ score)
     return np.where(np.isfinite(t), t, np.inf)
 
 
@@ -320,7 +328,8 @@ def run_relation(res, rng, scn, tr, base=None, capture=False):
         return 'skipped:non-finite predictions', None
     e0, e1 = float(gam0.statistics_['edof']), float(gam1.statistics_['edof'])
     X0, y0, w0_ = (X, y, w) if kind != 'replication' else (X, y, w0)
-    slack = lp_bounds(gam0, X0, y0, w0_, Xq) + lp_bounds(gam1, X1, y1, w1, Xq1)
+    f32w = (kind == 'replication')       # only there do the two fits see different weight VALUES (k w against w)
+    slack = lp_bounds(gam0, X0, y0, w0_, Xq, weight_rounding=f32w) + lp_bounds(gam1, X1, y1, w1, Xq1, weight_rounding=f32w)
     checks = [('predictions: excess over (tol * max|mu| + conditioning bound), in units of tol * max|mu|', mu_excess(gam0, Xq, mu0, mu1, slack), 1.0),
               ('edof: relative difference', rel_edof(e0, e1), TOL)]
     lpmax = float(np.max(np.abs(gam0._modelmat(Xq).toarray() @ gam0.coef_))) + 1e-300
@@ -678,6 +687,7 @@ def run(res):
         for i, mt in enumerate(cross_meta):
             res.case(repr(('cross', i, mt['transform'], repr(mt['specs']))))
     res.extra['tolerances'] = {'predictions / edof / scale / GCV / cov': '%g relative (to the largest entry); scale, GCV, cov: plus the first-order rounding bound of the residual sum of squares (dot-product bound (m+2) eps (|B_i||coef| + |y_i|) and solver forward error per residual) and of n - edof -- matters only for nearly interpolating fits (counted in input_distribution)' % TOL, 'p-values': '%g absolute, plus (1 + sqrt(k)) x [rounding bound of the scale + 64 eps cond(kept part of the term covariance block)] (k = coefficients of the term; sup x f(x) <= 1 + sqrt(k) for chi2_k / F_k densities)' % TOL,
+                               'replication, float32 weights': 'first-order effect of the relative error 2^-24 of weights ** -1 (evaluated in float32 by GAM._W) on the linear predictor, sum_i |q (A\'A)^-1 B_i| W_i^2 |z_i - lp_i| 2^-24, is added to the conditioning bound of both fits',
                                'convergence of the compared fits': 'tol=%g, max_iter=%d; unconverged pairs are counted, not compared' % (FIT_TOL, MAX_ITER),
                                'exact cross check': 'backward error bound of C01 (64 eps cond^2 clipped to [2^-27, 2^-16]); replication: at least 2^-20, pyGAM evaluates W = sqrt(w) in float32'}
     res.trusted.append('uniqueness of the fit is proved from positive definiteness of the total penalty (ridge sqrt(eps) I): C12_normal_equations_unique')
